@@ -233,7 +233,9 @@ func vfRunTW(c vfTWCase) *kit.Result {
 	lb := &vfTWLog{}
 	log.SetOutput(lb)
 	defer log.SetOutput(io.Discard)
-	frameLogIntervalFirstMin, frameLogInterval = vfInitialFLI1, vfInitialFLI
+	if !keepLogIntervals {
+		frameLogIntervalFirstMin, frameLogInterval = vfInitialFLI1, vfInitialFLI
+	}
 	conf := &Config{DeviceID: c.DevID, DeviceName: c.DevName, OutputDir: dir}
 	hdr, err := yaml.Marshal(map[string]interface{}{
 		headers.XResolution: c.W, headers.YResolution: c.H, headers.FrameSize: c.FrameSize, headers.Model: c.Model,
@@ -468,3 +470,28 @@ var (
 	rotCheck bool
 	rotFiles int
 )
+
+// TestVF_C18_Reconnects (thorough only): many successive connections to one thermal-writer process, one
+// second apart (file names have one-second resolution), at an even frame rate, with a different frame size
+// each time.
+func TestVF_C18_Reconnects(t *testing.T) {
+	s := kit.Begin("C18", "TestVF_C18_Reconnects", "36 successive connections to one thermal-writer process (1.05 s apart), fps 60, frame sizes 64..4096 changing with every connection, 5 frames each: every connection must be served like the first (well-formed file holding exactly its frames)")
+	defer s.End()
+	for k := 0; k < 36; k++ {
+		c := vfTWCase{FrameSize: 64 + 112*k, Frames: 5, Seed: uint32(100 + k), Procs: 4, W: 160, H: 120, FPS: 60, Model: "boson", Brand: "flir", DevName: "rc", DevID: 2}
+		keepLogIntervals = k > 0
+		r := vfRunTW(c)
+		keepLogIntervals = false
+		r.NT = true
+		s.Record(c, r)
+		if r.Err != "" {
+			r.Err = fmt.Sprintf("connection %d of 36: %s", k+1, r.Err)
+			s.Fail(c, r.Err)
+			t.Fatalf("C18 violated: %s", r.Err)
+		}
+		time.Sleep(1050 * time.Millisecond)
+	}
+}
+
+// keepLogIntervals: do not restore the daemon's package-level state between the connections of one scenario
+var keepLogIntervals bool
